@@ -641,6 +641,13 @@ def stepAll (d : DW) (line : String) : DW × String :=
   | ["estep", j, m] => (match d.env, j.toNat?, m.toInt? with
      | some e, some j, some m => let (e', o) := e.step j m; ({ d with env := some e' }, fmtStepOut e'.w.cfg.I o)
      | _, _, _ => (d, "bad-op"))
+  | ["edisp", j, p, m] => (match d.env, j.toNat?, p.toNat? with
+     -- the environment's dispatcher used directly (`env.dispatcher.dispatch(...)`) between two steps
+     | some e, some j, some p =>
+       let mm : Option Int := if m == "none" then none else m.toInt?
+       let r := e.w.dispatch j p mm
+       ({ d with env := some { e with w := r.1 } }, if r.2 then "ok" else "raise")
+     | _, _, _ => (d, "bad-op"))
   | ["esched"] => (match d.env with
      | some e => (d, "sched " ++ " | ".intercalate (e.w.s.sched.map fun ms => " ".intercalate (ms.map (fmtSOp e.w.cfg.I))))
      | none => (d, "bad-op"))
